@@ -471,4 +471,249 @@ Proof.
     + intros (w & Hne & Hw). destruct (Hall w t Hw) as [->|Hd]; [apply N0_root in Hw; congruence|apply in_rev in Hd; exact Hd].
 Qed.
 
+(* ---- build_outputs (nfa_builder.rs:209-226) -------------------------------------------------- *)
+Notation plen := (TrieInv.plen lbytes).
+Notation sufp := (Cert.sufpats V plen outs).
+Notation pateq := (Cert.pats_eq V plen outs).
+Hypothesis ND0 : NoDup (map fst outs).
+Hypothesis LEN0 : N.of_nat (length outs) < U32_MAX.
+
+Lemma pats_nodes0 : forall p v, In (p, v) outs -> inT0 p = true.
+Proof.
+  intros p v Hin. apply inT0_iff. pose proof (ti_sub _ _ _ _ _ _ T0 p v Hin) as Hp.
+  apply In_nth_error in Hp as [i Hi]. eexists. exact (ti_fwd _ _ _ _ _ _ T0 i p Hi).
+Qed.
+
+Lemma sufp_cons a r : sufp (a :: r) = pateq (a :: r) ++ sufp r.
+Proof.
+  unfold Cert.sufpats. cbn [length]. rewrite seq_S. rewrite rev_app_distr. cbn [rev app flat_map].
+  replace (1 + length r)%nat with (length (a :: r)) by reflexivity. rewrite lastn_all. f_equal.
+  apply flat_map_ext_in'. intros k Hk. apply in_rev in Hk. apply in_seq in Hk.
+  change (a :: r) with ([a] ++ r). rewrite lastn_app_r by lia. reflexivity.
+Qed.
+
+Lemma pateq_some w v : In (w, v) outs -> pateq w = [(plen w, v)].
+Proof.
+  intros Hin. unfold Cert.pats_eq. pose proof ND0 as Hnd. revert Hin Hnd. generalize outs as l.
+  induction l as [|[p x] l IH]; intros Hin Hnd; [destruct Hin|]. cbn [filter fst map] in *.
+  apply NoDup_cons_iff in Hnd as [Hnot Hnd]. destruct Hin as [E|Hin].
+  - inversion E; subst p x. assert (list_eqb w w = true) as -> by (apply list_eqb_eq; reflexivity). cbn [map fst snd]. f_equal.
+    assert (filter (fun pv : list N * V => list_eqb (fst pv) w) l = []) as ->; [|reflexivity].
+    apply filter_nil. intros [q y] Hq. cbn [fst]. destruct (list_eqb q w) eqn:E1; [|reflexivity]. apply list_eqb_eq in E1. subst q.
+    exfalso. apply Hnot. apply in_map_iff. exists (w, y). auto.
+  - destruct (list_eqb p w) eqn:E1.
+    + apply list_eqb_eq in E1. subst p. exfalso. apply Hnot. apply in_map_iff. exists (w, v). auto.
+    + exact (IH Hin Hnd).
+Qed.
+
+Lemma pateq_none w : (forall v, ~ In (w, v) outs) -> pateq w = [].
+Proof.
+  intros Hn. unfold Cert.pats_eq. rewrite filter_nil; [reflexivity|]. intros [q y] Hq. cbn [fst].
+  destruct (list_eqb q w) eqn:E1; [|reflexivity]. apply list_eqb_eq in E1. subst q. exfalso. exact (Hn y Hq).
+Qed.
+
+(* the output chain starting at a position, as a relation (positions strictly decrease) *)
+Inductive Chain (tbl : list (output V)) : N -> list (output V) -> Prop :=
+| Chain_nil : Chain tbl 0 []
+| Chain_cons pos o l : pos <> 0 -> nth_error tbl (N.to_nat (pos - 1)) = Some o -> o_parent o < pos ->
+    Chain tbl (o_parent o) l -> Chain tbl pos (o :: l).
+
+Lemma Chain_app tbl x pos l : Chain tbl pos l -> Chain (tbl ++ x) pos l.
+Proof.
+  induction 1 as [|pos o l Hp Hn Hlt _ IH]; [constructor|]. econstructor; try eassumption.
+  rewrite nth_error_app1; [exact Hn|]. apply nth_error_Some. congruence.
+Qed.
+
+Definition pairs (l : list (output V)) : list (N * V) := map (fun o => (o_length o, o_value o)) l.
+Definition outposof (n : nfa V) (t : N) : N := match nget t (n_states n) with Some st => n_outpos st | None => 0 end.
+Definition OutOK (n : nfa V) (t : N) : Prop :=
+  forall w, N0 w t -> exists l, Chain (n_outputs n) (outposof n t) l /\ pairs l = sufp w.
+
+(* what outputs_loop leaves alone: everything but output positions and the output table *)
+Definition same_links (n1 n : nfa V) : Prop :=
+  n_nstates n = n_nstates n1 /\ n_kind n = n_kind n1 /\
+  forall i, match nget i (n_states n), nget i (n_states n1) with
+            | Some st, Some st1 => n_edges st = n_edges st1 /\ n_output st = n_output st1 /\ n_fail st = n_fail st1
+            | None, None => True
+            | _, _ => False
+            end.
+
+Lemma same_links_refl n : same_links n n.
+Proof. unfold same_links. repeat split. intros i. destruct (nget i (n_states n)); auto. Qed.
+
+Section Outs.
+Variable n1 : nfa V.
+Hypothesis ST1 : same_trie n1.
+Hypothesis F1 : forall w t, N0 w t -> N0 (lsuf0 (tl w)) (failof n1 t).
+
+Record OI (n : nfa V) (qd : list N) : Prop := {
+  oi_links : same_links n1 n;
+  oi_ok : forall t, t = ROOT \/ In t qd -> OutOK n t;
+  oi_root : outposof n ROOT = 0;
+  oi_cnt : exists pushed : list (list N), length pushed = length (n_outputs n) /\ NoDup pushed /\ incl pushed (map fst outs)
+             /\ forall p, In p pushed -> exists t, In t qd /\ N0 p t
+}.
+
+Lemma same_links_get n i : same_links n1 n -> i < n_nstates n0 ->
+  exists st st0, nfa_get V n i = Ok st /\ nget i (n_states n) = Some st /\ nget i (n_states n0) = Some st0
+     /\ n_output st = n_output st0 /\ n_fail st = failof n1 i.
+Proof.
+  intros (Hn & _ & H) Hi. destruct (same_trie_get n1 i ST1 Hi) as (s1 & s0 & _ & G1 & G0 & _ & Ho & _).
+  specialize (H i). rewrite G1 in H. destruct (nget i (n_states n)) as [st|] eqn:E; [|contradiction].
+  exists st, s0. unfold nfa_get. destruct ST1 as (Hn1 & _). rewrite Hn, Hn1. apply N.ltb_lt in Hi. rewrite Hi, E.
+  repeat split; try reflexivity; try assumption; [destruct H as (_ & -> & _); exact Ho|].
+  unfold failof. rewrite G1. apply H.
+Qed.
+
+Lemma outputs_loop_ok : forall q n qd, OI n qd ->
+  NoDup (qd ++ q) -> StronglySorted (fun a b => (dep a <= dep b)%nat) (qd ++ q) ->
+  (forall t, In t (qd ++ q) <-> exists w, w <> [] /\ N0 w t) ->
+  exists n', outputs_loop V n q = Ok n' /\ OI n' (qd ++ q).
+Proof.
+  induction q as [|sid q IH]; intros n qd OIn Hnd Hso Hmem; cbn [outputs_loop].
+  - exists n. rewrite app_nil_r. auto.
+  - assert (Hsid : In sid (qd ++ sid :: q)) by (apply in_app_iff; right; left; reflexivity).
+    destruct (proj1 (Hmem sid) Hsid) as (w & Hwne & Hw).
+    pose proof (oi_links _ _ OIn) as SL.
+    destruct (same_links_get n sid SL (N0_lt _ _ Hw)) as (st & st0 & Hg & G1 & G0 & Ho & Hf). rewrite Hg. cbn [bind].
+    pose proof (F1 w sid Hw) as Hfw. rewrite <- Hf in Hfw.
+    (* the fail target is the root or was processed earlier *)
+    assert (Hfd : n_fail st = ROOT \/ In (n_fail st) qd).
+    { destruct (N.eq_dec (n_fail st) ROOT) as [E|Hne]; [left; exact E|right].
+      assert (Hin : In (n_fail st) (qd ++ sid :: q)).
+      { apply Hmem. exists (lsuf0 (tl w)). split; [|exact Hfw]. intros E. rewrite E in Hfw. unfold N0 in Hfw. cbn in Hfw. congruence. }
+      assert (Hdl : (dep (n_fail st) < dep sid)%nat).
+      { rewrite (dep_N0 _ _ Hfw), (dep_N0 _ _ Hw). pose proof (lsuf0_len (tl w)). destruct w; [congruence|cbn [tl length] in *; lia]. }
+      apply in_app_iff in Hin as [Hin|Hin]; [exact Hin|exfalso].
+      apply ssorted_app_iff in Hso as (_ & Hso & _). inversion Hso as [|? ? _ Hfa]; subst. rewrite Forall_forall in Hfa.
+      destruct Hin as [E|Hin]; [rewrite E in Hdl; lia|]. specialize (Hfa _ Hin). lia. }
+    assert ((n_fail st =? sid) = false) as ->.
+    { apply N.eqb_neq. intros E. destruct Hfd as [Hr|Hd]; [rewrite E in Hr; subst sid; apply N0_root in Hw; congruence|].
+      rewrite E in Hd. apply NoDup_remove_2 in Hnd. apply Hnd. apply in_app_iff. left. exact Hd. }
+    destruct (lsuf0_node (tl w)) as [tf Htf]. assert (tf = n_fail st) by (unfold N0 in *; congruence). subst tf.
+    destruct (same_links_get n (n_fail st) SL (N0_lt _ _ Hfw)) as (fs & fs0 & Hgf & G1f & _). rewrite Hgf. cbn [bind].
+    destruct (oi_ok _ _ OIn (n_fail st) Hfd _ Hfw) as (lf & Hcf & Hpf).
+    assert (Hopf : outposof n (n_fail st) = n_outpos fs) by (unfold outposof; rewrite G1f; reflexivity).
+    rewrite Hopf in Hcf.
+    assert (Hsw : sufp w = pateq w ++ sufp (lsuf0 (tl w))).
+    { destruct w as [|a r]; [congruence|]. rewrite sufp_cons. cbn [tl]. f_equal. apply (sufpats_lsuf V child0 plen outs pats_nodes0). }
+    pose proof (ti_out _ _ _ _ _ _ T0 w sid st0 Hw G0) as Hto. rewrite <- Ho in Hto.
+    replace (qd ++ sid :: q) with ((qd ++ [sid]) ++ q) in * by (rewrite <- app_assoc; reflexivity).
+    destruct (oi_cnt _ _ OIn) as (pushed & Hpl & Hpn & Hpi & Hpq).
+    destruct (n_output st) as [[v len]|] eqn:Eo.
+    + destruct Hto as [Hin ->].
+      assert (Hnew : ~ In w pushed).
+      { intros Hi. destruct (Hpq w Hi) as (t & Ht & Hwt). assert (t = sid) by (unfold N0 in *; congruence). subst t.
+        rewrite <- app_assoc in Hnd. apply NoDup_remove_2 in Hnd. apply Hnd. apply in_app_iff. left. exact Ht. }
+      assert (Hbound : (length (w :: pushed) <= length outs)%nat).
+      { rewrite <- (map_length fst outs). apply NoDup_incl_length; [constructor; assumption|].
+        intros x [<-|Hx]; [apply in_map_iff; exists (w, v); auto|exact (Hpi x Hx)]. }
+      cbn [length] in Hbound.
+      assert ((U32_MAX <? N.of_nat (length (n_outputs n)) + 1) = false) as -> by (apply N.ltb_ge; lia).
+      apply IH; try assumption. clear IH.
+      set (no := {| o_value := v; o_length := plen w; o_parent := n_outpos fs |}).
+      constructor.
+      * destruct SL as (S1 & S2 & S3). unfold same_links, nfa_set. cbn [n_nstates n_kind n_states]. repeat split; try assumption.
+        intros j. destruct (N.eq_dec j sid) as [->|Hne].
+        -- rewrite ngss. specialize (S3 sid). rewrite G1 in S3. destruct (nget sid (n_states n1)); [|contradiction]. cbn. rewrite <- Eo. exact S3.
+        -- rewrite ngso by exact Hne. exact (S3 j).
+      * intros t Ht. assert (Hcase : t = sid \/ (t <> sid /\ (t = ROOT \/ In t qd))).
+        { destruct (N.eq_dec t sid) as [->|Hne]; [left; reflexivity|right]. split; [exact Hne|].
+          destruct Ht as [->|Ht]; [left; reflexivity|]. apply in_app_iff in Ht as [Ht|[E|[]]]; [right; exact Ht|congruence]. }
+        destruct Hcase as [->|[Hne Ht']].
+        -- intros w' Hw'. rewrite (N0_inj _ _ _ Hw' Hw). exists (no :: lf). cbn [n_outputs]. split.
+           ++ unfold outposof, nfa_set. cbn [n_states n_outputs]. rewrite ngss. cbn [n_outpos].
+              apply (Chain_cons _ _ no lf); [lia| | |].
+              ** replace (N.to_nat (N.of_nat (length (n_outputs n)) + 1 - 1)) with (length (n_outputs n)) by lia.
+                 rewrite nth_error_app2 by lia. rewrite Nat.sub_diag. reflexivity.
+              ** cbn [o_parent no]. assert (n_outpos fs <= N.of_nat (length (n_outputs n))); [|lia].
+                 inversion Hcf as [|pos o l Hp Hn _ _]; subst; [lia|]. assert (N.to_nat (n_outpos fs - 1) < length (n_outputs n))%nat by (apply nth_error_Some; congruence). lia.
+              ** cbn [o_parent no]. apply Chain_app. exact Hcf.
+           ++ unfold pairs in *. cbn [map o_length o_value no]. rewrite Hsw, (pateq_some w v Hin), Hpf. reflexivity.
+        -- intros w' Hw'. destruct (oi_ok _ _ OIn t Ht' w' Hw') as (l & Hc & Hp). exists l. cbn [n_outputs]. split; [|exact Hp].
+           unfold outposof, nfa_set in *. cbn [n_states]. rewrite ngso by exact Hne. apply Chain_app. exact Hc.
+      * unfold outposof, nfa_set. cbn [n_states]. assert (ROOT <> sid) by (intros <-; apply N0_root in Hw; congruence).
+        rewrite ngso by assumption. exact (oi_root _ _ OIn).
+      * exists (pushed ++ [w]). unfold nfa_set. cbn [n_outputs]. rewrite !app_length. cbn [length]. split; [lia|]. split.
+        -- apply nodup_app_intro. split; [exact Hpn|]. split; [constructor; [intros []|constructor]|]. intros x Hx [<-|[]]. exact (Hnew Hx).
+        -- split.
+           ++ intros x Hx. apply in_app_iff in Hx as [Hx|[<-|[]]]; [exact (Hpi x Hx)|apply in_map_iff; exists (w, v); auto].
+           ++ intros x Hx. apply in_app_iff in Hx as [Hx|[<-|[]]].
+              ** destruct (Hpq x Hx) as (t & Ht & Hxt). exists t. split; [apply in_app_iff; left; exact Ht|exact Hxt].
+              ** exists sid. split; [apply in_app_iff; right; left; reflexivity|exact Hw].
+    + apply IH; try assumption. clear IH.
+      constructor.
+      * destruct SL as (S1 & S2 & S3). unfold same_links, nfa_set. cbn [n_nstates n_kind n_states]. repeat split; try assumption.
+        intros j. destruct (N.eq_dec j sid) as [->|Hne].
+        -- rewrite ngss. specialize (S3 sid). rewrite G1 in S3. destruct (nget sid (n_states n1)); [|contradiction]. cbn. rewrite <- Eo. exact S3.
+        -- rewrite ngso by exact Hne. exact (S3 j).
+      * intros t Ht. assert (Hcase : t = sid \/ (t <> sid /\ (t = ROOT \/ In t qd))).
+        { destruct (N.eq_dec t sid) as [->|Hne]; [left; reflexivity|right]. split; [exact Hne|].
+          destruct Ht as [->|Ht]; [left; reflexivity|]. apply in_app_iff in Ht as [Ht|[E|[]]]; [right; exact Ht|congruence]. }
+        destruct Hcase as [->|[Hne Ht']].
+        -- intros w' Hw'. rewrite (N0_inj _ _ _ Hw' Hw). exists lf. split.
+           ++ unfold outposof, nfa_set. cbn [n_states n_outputs]. rewrite ngss. cbn [n_outpos]. exact Hcf.
+           ++ rewrite Hsw, (pateq_none w Hto), Hpf. reflexivity.
+        -- intros w' Hw'. destruct (oi_ok _ _ OIn t Ht' w' Hw') as (l & Hc & Hp). exists l. split; [|exact Hp].
+           unfold outposof, nfa_set in *. cbn [n_states n_outputs]. rewrite ngso by exact Hne. exact Hc.
+      * unfold outposof, nfa_set. cbn [n_states]. assert (ROOT <> sid) by (intros <-; apply N0_root in Hw; congruence).
+        rewrite ngso by assumption. exact (oi_root _ _ OIn).
+      * exists pushed. cbn [n_outputs nfa_set]. split; [exact Hpl|]. split; [exact Hpn|]. split; [exact Hpi|].
+        intros x Hx. destruct (Hpq x Hx) as (t & Ht & Hxt). exists t. split; [apply in_app_iff; left; exact Ht|exact Hxt].
+Qed.
+End Outs.
+
+(* ---- finish_nfa, standard kind ------------------------------------------------------------------ *)
+Hypothesis OP0 : forall i st, nget i (n_states n0) = Some st -> n_outpos st = 0.
+Hypothesis OUT0 : n_outputs n0 = [].
+Hypothesis NE0 : outs <> [].
+Hypothesis STD0 : n_kind n0 = Standard.
+
+Theorem finish_nfa_std_ok :
+  exists n2, finish_nfa V n0 = Ok n2
+    /\ n_nstates n2 = n_nstates n0 /\ n_kind n2 = Standard
+    /\ (forall s c, tchild V n2 s c = tchild V n0 s c)
+    /\ (forall w t, N0 w t -> N0 (lsuf0 (tl w)) (failof n2 t))
+    /\ (forall w t, N0 w t -> OutOK n2 t)
+    /\ (N.of_nat (length (n_outputs n2)) <= N.of_nat (length outs)).
+Proof.
+  unfold finish_nfa. rewrite STD0.
+  destruct build_fails_ok as (n1 & q & Hb & ST1 & F1 & Hnd & Hso & Hmem). rewrite Hb. cbn [bind].
+  assert (Hop1 : forall t, outposof n1 t = 0).
+  { intros t. unfold outposof. destruct ST1 as (_ & _ & _ & H). specialize (H t).
+    destruct (nget t (n_states n1)) as [st|] eqn:E; [|reflexivity]. destruct (nget t (n_states n0)) as [st0|] eqn:E0; [|contradiction].
+    destruct H as (_ & _ & ->). exact (OP0 t st0 E0). }
+  assert (OI1 : OI n1 n1 []).
+  { constructor.
+    - apply same_links_refl.
+    - intros t [->|[]] w Hw. apply N0_root in Hw. subst w. exists []. rewrite Hop1. split; [constructor|reflexivity].
+    - apply Hop1.
+    - exists []. destruct ST1 as (_ & _ & -> & _). rewrite OUT0. cbn. repeat split; [constructor|intros x []|intros x []]. }
+  destruct (outputs_loop_ok n1 ST1 F1 q n1 [] OI1 Hnd Hso Hmem) as (n2 & Ho & OI2). cbn [app] in OI2.
+  (* the queue is not empty and does not start with the root *)
+  assert (Hex : exists p v, In (p, v) outs).
+  { pose proof NE0 as Hne. clear -Hne. destruct outs as [|[p v] r]; [congruence|]. exists p, v. left. reflexivity. }
+  destruct Hex as (p & v & Hpv).
+  assert (Hp : exists t, N0 p t /\ p <> []).
+  { pose proof (ti_sub _ _ _ _ _ _ T0 p v Hpv) as Hin. pose proof (proj1 (ti_mem _ _ _ _ _ _ T0 p) Hin) as [Hpne _].
+    apply In_nth_error in Hin as [i Hi]. eexists. split; [exact (ti_fwd _ _ _ _ _ _ T0 i p Hi)|exact Hpne]. }
+  destruct Hp as (tp & Htp & Hpne). assert (Hinq : In tp q) by (apply Hmem; exists p; auto).
+  unfold build_outputs. destruct q as [|q0 q']; [destruct Hinq|].
+  assert ((q0 =? ROOT) = false) as ->.
+  { apply N.eqb_neq. intros ->. destruct (proj1 (Hmem ROOT) (or_introl eq_refl)) as (w & Hwne & Hw). apply N0_root in Hw. congruence. }
+  exists n2. split; [exact Ho|].
+  destruct (oi_links _ _ _ OI2) as (L1 & L2 & L3). destruct ST1 as (S1 & S2 & S3 & S4).
+  split; [congruence|]. split; [congruence|]. split; [|split; [|split]].
+  - intros s c. unfold tchild. specialize (L3 s). specialize (S4 s).
+    destruct (nget s (n_states n2)), (nget s (n_states n1)), (nget s (n_states n0)); try contradiction; try reflexivity.
+    destruct L3 as (-> & _). destruct S4 as (-> & _). reflexivity.
+  - intros w t Hw. replace (failof n2 t) with (failof n1 t); [exact (F1 w t Hw)|].
+    unfold failof. specialize (L3 t). destruct (nget t (n_states n2)), (nget t (n_states n1)); try contradiction; [|reflexivity].
+    destruct L3 as (_ & _ & ->). reflexivity.
+  - intros w t Hw. apply (oi_ok _ _ _ OI2). destruct (N.eq_dec t ROOT) as [->|Hne]; [left; reflexivity|right].
+    apply Hmem. exists w. split; [|exact Hw]. intros ->. unfold N0 in Hw. cbn in Hw. congruence.
+  - destruct (oi_cnt _ _ _ OI2) as (pushed & Hpl & Hpn & Hpi & _). rewrite <- Hpl.
+    pose proof (NoDup_incl_length Hpn Hpi) as Hle. rewrite map_length in Hle. lia.
+Qed.
+
 End NF.
